@@ -20,6 +20,7 @@ package yang
 
 import (
 	"fmt"
+	"sort"
 	"sync"
 )
 
@@ -434,6 +435,10 @@ func (ms *Modules) Process() []error {
 	for _, m := range ms.SubModules {
 		mods = append(mods, m)
 	}
+	// Visit the modules in a fixed order: when two of them bring the same
+	// node to one target, which augment is applied and which is refused must
+	// not depend on the iteration order of a map.
+	sortByFullName(mods)
 	for len(mods) > 0 {
 		var processed int
 		for i := 0; i < len(mods); {
@@ -507,6 +512,17 @@ func (ms *Modules) Process() []error {
 	}
 
 	return errorSort(errs)
+}
+
+// sortByFullName orders mods by full name, a module before a submodule of the
+// same full name.
+func sortByFullName(mods []*Module) {
+	sort.SliceStable(mods, func(i, j int) bool {
+		if a, b := mods[i].FullName(), mods[j].FullName(); a != b {
+			return a < b
+		}
+		return mods[i].BelongsTo == nil && mods[j].BelongsTo != nil
+	})
 }
 
 // include resolves all the include and import statements for m.  It returns
